@@ -2,10 +2,12 @@ package c03
 
 import (
 	"context"
+	"errors"
 	"fmt"
 	"strconv"
 	"time"
 
+	"github.com/zeromicro/go-zero/core/breaker"
 	"github.com/zeromicro/go-zero/core/limit"
 	"github.com/zeromicro/go-zero/core/stores/redis"
 
@@ -53,6 +55,7 @@ type pWorld struct {
 	keys           map[string]*pKey
 	cur            map[int]*pCall
 	takes, grants  int
+	noscript       int // NOSCRIPT replies (EVALSHA before the script was loaded)
 	execs          int
 }
 
@@ -88,6 +91,7 @@ func (w *pWorld) onExec(e *simredis.Exec) {
 	r.Ev("pexec", int64(e.Cmd.Task), int64(kind), v)
 	if kind == 'e' {
 		if len(msg) >= 8 && msg[:8] == "NOSCRIPT" {
+			w.noscript++
 			return
 		}
 		w.note(2, "period-script-error", "the server failed the period script on %s: %s", keys[0], msg)
@@ -199,7 +203,13 @@ func (w *pWorld) checkCall(c *pCall, code int, err error) {
 			w.note(1, "period-error-with-code", "Take returned code %d together with error %v", code, err)
 		}
 		if !w.faulty {
-			w.note(4, "period-error-without-fault", "Take on %s failed without any injected fault: %v", c.key.full, err)
+			if errors.Is(err, breaker.ErrServiceUnavailable) && w.noscript > 5 {
+				// observed: concurrent first takes on a cold script cache each get NOSCRIPT, the
+				// redis breaker counts those replies as failures and starts rejecting
+				w.note(4, "period-error-store-healthy/breaker-open-after-noscript", "Take on %s was rejected (%v) on a healthy store without any injected fault, after %d NOSCRIPT replies to concurrent first takes were counted as failures by the redis breaker", c.key.full, err, w.noscript)
+			} else {
+				w.note(4, "period-error-without-fault", "Take on %s failed without any injected fault: %v", c.key.full, err)
+			}
 		}
 		return
 	}
